@@ -1,5 +1,6 @@
 """C14 -- every IDL in the supported grammar generates Rust that compiles."""
 import boxing
+import autoderive
 import glob, itertools, os, re, shutil
 import common as c
 import gen, gencheck, pbcheck, schemas, pbschemas, c14docs
@@ -38,6 +39,15 @@ def documents(tier, seed):
         d["only_default_config"] = True
         docs.append(d)
     documents.boxing_stats = bst
+    # derive decisions: representatives of every signature explored by spec/MCAutoDerive.tla with the outcome the as-built
+    # model (spec/AutoDerive.tla) predicts; a predicted failure is the recorded blind spot of the derive predicate
+    areps, ast = autoderive.select(tier, seed)
+    for g, ok, pre, i in areps:
+        d = c14docs.doc(f"derive_{i}", autoderive.render(g), shape="derive-graph" if ok else "derive-graph-double-behind-btree")
+        d["predicted_ok"] = ok
+        d["only_default_config"] = True
+        docs.append(d)
+    documents.autoderive_stats = ast
     for g in sorted(glob.glob(os.path.join(c.REPO, "pilota-build/test_data/thrift/*.thrift"))):
         name = os.path.basename(g)[:-7]
         d = c14docs.doc("golden_" + name, open(g).read(), shape="golden:" + name)
@@ -130,7 +140,7 @@ def run(rep, tier, seed, replay):
     # (if it compiles, the model misdescribes the generator: a tool error, not a property violation)
     wrong = [u.doc["name"] for u in units if u.doc.get("predicted_ok") is False and u.ok]
     if wrong:
-        raise c.ToolError("spec/Boxing.tla predicts an infinite-size type for documents that compile: " + ", ".join(wrong[:8]))
+        raise c.ToolError("spec/Boxing.tla / spec/AutoDerive.tla predict a compile error for documents that compile: " + ", ".join(wrong[:8]))
     # quarantined documents that unexpectedly pass are fine (a finding got repaired); nothing to report
     rep.cov = {
         "evaluations": len(units), "distinct_nontrivial": len(docs),
@@ -143,8 +153,11 @@ def run(rep, tier, seed, replay):
                 "emitted files against the working-tree runtime",
         "samples": [{"document": units[3].doc["name"], "config": cfg_name(units[3].cfg), "ok": units[3].ok}],
         "programs": len(docs), "units": len(units), "failing_units_before_known_filter": nfail, "exhaustive": False,
-        "recursive_type_graphs": dict(getattr(documents, "boxing_stats", {}), documents_run=len([u for u in units if "predicted_ok" in u.doc]),
-                                      predicted_failures_confirmed=len([u for u in units if u.doc.get("predicted_ok") is False and not u.ok]),
+        "derive_decision_graphs": dict(getattr(documents, "autoderive_stats", {}), documents_run=len([u for u in units if u.doc["name"].startswith("derive_") and "predicted_ok" in u.doc]),
+                                       predicted_failures_confirmed=len([u for u in units if u.doc["name"].startswith("derive_") and u.doc.get("predicted_ok") is False and not u.ok]),
+                                       theorem="with the complete type graph the as-built derive(Hash, Eq, Ord) decisions are the ideal ones in every order of the top-level calls, unless an f64 sits behind Arc / btree (checked by TLC on all 28 561 graphs x 6 orders); the type graph before fix 0004637 is refuted"),
+        "recursive_type_graphs": dict(getattr(documents, "boxing_stats", {}), documents_run=len([u for u in units if u.doc["name"].startswith("box_")]),
+                                      predicted_failures_confirmed=len([u for u in units if u.doc["name"].startswith("box_") and u.doc.get("predicted_ok") is False and not u.ok]),
                                       theorem="after as-built boxing a by-value cycle remains iff the graph has a by-value cycle through union variants and typedefs only (checked by TLC on every graph)"),
     }
     rep.assumptions = ["TLA+ does not decide type-checking: rustc is the oracle; the specification supplies the program space (DESIGN.md 5) "
